@@ -8,7 +8,7 @@
 #include "tree.h"
 
 static const char *UNI[T_MAXU] = { "10-a.conf", "9-b.conf", "B.conf", "README", "a.conf", ".h.conf", ".conf", "x.conf.bak" };
-static const char *EPN[8] = { "econf_readFile", "econf_readFileWithCallback", "econf_readConfig", "econf_readConfigWithCallback",
+static const char *EPN[8] = { "econf_readFile", "econf_readFileWithCallback", "econf_readConfig", "econf_readConfigWithCallback (CONFIG_DIRS=.d:.conf.d)",
                               "econf_readDirs", "econf_readDirsWithCallback", "econf_readDirsHistory", "econf_readDirsHistoryWithCallback" };
 static int nu = 2, maxdev = 1;
 static char root[300], options[600];
@@ -34,6 +34,11 @@ static void setup(int ep)
     const char *sub[3] = { "/usr/lib", "/run", "/etc" };
     for (int l = 0; l < 3; l++) snprintf(ts.layer_dir[l], sizeof ts.layer_dir[l], "%s%s/proj", root, sub[l]);
     snprintf(options, sizeof options, "ROOT_PREFIX=%s", root);
+    if (ep == 3) {
+      /* two drop-in directories per layer (10-a.conf lives in cfg.d, 9-b.conf in cfg.conf.d): a refusal in the first one must not be forgotten while the second one is read */
+      snprintf(options, sizeof options, "ROOT_PREFIX=%s;CONFIG_DIRS=.d:.conf.d", root);
+      ts.ncd = 2; snprintf(ts.cd[0], sizeof ts.cd[0], ".d"); snprintf(ts.cd[1], sizeof ts.cd[1], ".conf.d"); ts.cd_disjoint = 1;
+    }
   } else if (ep < 2) {
     ts.nlayers = 1; snprintf(ts.layer_dir[0], sizeof ts.layer_dir[0], "%s/single", root);
   } else {
